@@ -26,7 +26,7 @@ def drop_raises(paths):
 
 def formula_check(res, model: Model, qual: str, ref_src: str, what: str, opaque: Iterable[str] = (),
                   ignore_raises: bool = False, extern: Optional[Dict[str, object]] = None, rule: str = "R-FORMULA",
-                  int_is_floor: bool = False, selfcls: Optional[str] = None, max_paths: int = 4000):
+                  int_is_floor: bool = False, selfcls: Optional[str] = None, max_paths: int = 4000, aliases=None):
     """Compare `qual` with the reference.  Equal -> obligation discharged; different -> finding; unreadable ->
     AnalysisError (exit 2, never a violation)."""
     f = qual if isinstance(qual, FuncInfo) else model.func(qual)
@@ -35,6 +35,9 @@ def formula_check(res, model: Model, qual: str, ref_src: str, what: str, opaque:
     try:
         ev1 = Evaluator(model, opaque_funcs=opaque, extern=extern, int_is_floor=int_is_floor, max_paths=max_paths)
         ev2 = Evaluator(model, opaque_funcs=opaque, extern=extern, int_is_floor=int_is_floor, max_paths=max_paths)
+        if aliases:
+            ev1.attr_alias = dict(aliases)
+            ev2.attr_alias = dict(aliases)
         sc = model.cls(selfcls) if selfcls else f.cls
         p1 = ev1._function_paths_ctx(f, {}, None, 0, sc)
         p2 = ev2._function_paths_ctx(rf, {}, None, 0, sc)
@@ -92,7 +95,7 @@ def _sig(paths, ignore_kinds, ignore_calls, keep_raise_effects):
 
 def effects_check(res, model: Model, qual: str, ref_src: str, what: str, effect_calls, opaque=(),
                   ignore_kinds=("expr",), ignore_calls=(), rule: str = "R-PAIR", keep_raise_effects=False,
-                  selfcls: Optional[str] = None, ordered: bool = False):
+                  selfcls: Optional[str] = None, ordered: bool = False, aliases=None):
     """Ledger identity: on every path, the multiset of effects (wallet/cash primitives called with which canonical
     amounts, stores into position fields, the recorded action) equals the reference's, and so does the result."""
     f = qual if isinstance(qual, FuncInfo) else model.func(qual)
@@ -100,8 +103,12 @@ def effects_check(res, model: Model, qual: str, ref_src: str, what: str, effect_
     rf = ref_func(model, f, ref_src)
     sc = model.cls(selfcls) if selfcls else f.cls
     try:
-        p1 = Evaluator(model, opaque_funcs=opaque).effect_paths(f, effect_calls, sc)
-        p2 = Evaluator(model, opaque_funcs=opaque).effect_paths(rf, effect_calls, sc)
+        e1, e2 = Evaluator(model, opaque_funcs=opaque), Evaluator(model, opaque_funcs=opaque)
+        if aliases:
+            e1.attr_alias = dict(aliases)
+            e2.attr_alias = dict(aliases)
+        p1 = e1.effect_paths(f, effect_calls, sc)
+        p2 = e2.effect_paths(rf, effect_calls, sc)
     except Unreadable as e:
         raise AnalysisError(f"{res.prop}: {qual} is outside the evaluator's language ({e}); ledger clause '{what}' "
                             f"cannot be decided")
@@ -127,13 +134,27 @@ def effects_check(res, model: Model, qual: str, ref_src: str, what: str, effect_
     why = ""
     if not ok:
         def diff(a, pool):
-            # closest path in the pool: same guards
+            # closest path in the pool: most guards in common
+            best = None
             for b in pool:
-                if a[0] == b[0]:
-                    da = sorted(set(dict(a[1])) - set(dict(b[1])))
-                    db = sorted(set(dict(b[1])) - set(dict(a[1])))
-                    return f"effects only in code: {da[:3]}; only in reference: {db[:3]}; result code={a[2]!r} ref={b[2]!r}"
-            return f"no reference path with guards {sorted(map(repr, a[0]))[:4]}"
+                score = len(a[0] & b[0]) * 2 - len(a[0] ^ b[0])
+                if best is None or score > best[0]:
+                    best = (score, b)
+            if best is None:
+                return "reference has no paths"
+            b = best[1]
+            ga = sorted(repr(x)[:160] for x in a[0] - b[0])
+            gb = sorted(repr(x)[:160] for x in b[0] - a[0])
+            da = sorted(x[:220] for x in set(dict(a[1])) - set(dict(b[1])))
+            db = sorted(x[:220] for x in set(dict(b[1])) - set(dict(a[1])))
+            msg = []
+            if ga or gb:
+                msg.append(f"guards only in code {ga[:3]} / only in reference {gb[:3]}")
+            if da or db:
+                msg.append(f"effects only in code {da[:2]} / only in reference {db[:2]}")
+            if not _val_eq(a[2], b[2]):
+                msg.append(f"result code={repr(a[2])[:200]} ref={repr(b[2])[:200]}")
+            return "; ".join(msg) or "paths differ"
         parts = [diff(u, s2) for u in un[:2]]
         if not un and rest:
             parts.append(f"reference path missing in code: guards {sorted(map(repr, rest[0][0]))[:4]}")
